@@ -174,6 +174,11 @@ class C20(EngineACheck):
                     cr = rec.jobs[adopted] if adopted else rec.jobs[c]
                     if cr.call_hash and 0 < cr.settled_seq < r.settled_seq:
                         kids.append(cr.call_hash)
+                    elif cr.call_hash_at_report and cr.reported_seq < r.settled_seq:
+                        # a child served by the cache carries its call hash from the moment of
+                        # the hit: the parent's node includes it even when the parent fails
+                        # before that child's (queued) resolution is processed
+                        kids.append(cr.call_hash_at_report)
                 expect = call_node_hash(r.task_hash, r.args_hash, node["value_hash"], kids)
                 out.probe("call_nodes_recomputed")
                 if expect != r.call_hash:
